@@ -402,7 +402,7 @@ def arrays(elem, heavy=False):
     if heavy:
         return st.one_of(st.just([]), st.lists(elem, min_size=1, max_size=6))
     # long arrays: a few generated elements repeated cyclically up to the boundary length (cheap to generate and shrink)
-    big = st.builds(lambda n, xs: [xs[i % len(xs)] for i in range(n)], st.sampled_from([0xFC, 0xFD, 0xFE]),
+    big = st.builds(lambda n, xs: [xs[i % len(xs)] for i in range(n)], st.sampled_from([0xFC, 0xFD, 0xFE, 0x100, 0x101, 0x12C]),
                     st.lists(elem, min_size=1, max_size=5))
     return weighted([(12, st.just([])), (78, st.lists(elem, min_size=1, max_size=6)), (10, big)])
 
